@@ -38,6 +38,7 @@ THEOREMS = [
     # executable right-hand sides (Spec/Lockfiles.lean `expected`), evaluated by Drivers/C03 for every decoded-format case: extract ~ Perm ~ expected
     'Scalibr.Lockfiles.C03_packagelock_expected_model_semantics', 'Scalibr.Lockfiles.C03_pipfile_expected', 'Scalibr.Lockfiles.C03_pkgslock_expected',
     'Scalibr.Lockfiles.C03_gomod_expected_model_semantics',
+    'Scalibr.Lockfiles.C03_gomod_sum_model_semantics',   # go < 1.17 with a readable go.sum: go.mod packages + every module of go.sum, once per (name, version)
     'Scalibr.Lockfiles.C03_pkgslock_project_skipped',   # decided: a "type": "Project" entry is not reported (former known finding C03/pkgslock-project-reference, fixed)
 ]
 # restatements of model definitions (append / map over the decoded arrays): NOT proof obligations, no property content of their own
@@ -75,7 +76,8 @@ def run(ctx):
                        '"global options other than -r": model = implementation, reported as an observation); environment-variable lines are ignored by design',
                        'reqtree path arithmetic: the Lean `resolve` (filepath.Join(filepath.Dir(including), operand) on slash paths, incl. Clean) is validated against the Go functions by the stream, odd operands included; '
                        'the generator computes its expected closure with package `path`, the Lean Spec checks the generator\'s list of reachable files as a certificate (`isReachCert`, theorem reachCert_iff) instead of trusting it',
-                       'go.mod: the go.sum branch for go < 1.17 is outside the model (needs a sibling file)',
+                       'go.mod: the go.sum branch (go / toolchain older than 1.17) is modelled at the level of the fields of the go.sum lines (GoMod.extractWithSum); WHETHER a version is older than 1.17 is go/version.Compare, evaluated by the harness and passed to the model',
+                       'dpkg: usr/lib/opkg/status is read like var/lib/dpkg/status (same cases, another path); var/lib/dpkg/status.d/<name> has its own model (Dpkg.parseD: stanzas without Status count, a reader error yields no packages) tied by the stream only, format dpkgd',
                        'a Gemfile.lock line of 64 KiB or more silently ends the file (scanner.Err() is never checked after the loop): outside WF, reported as an observation']
     ctx.rule = ('case = one generated file of one of the twelve formats: abstract package set (0..40 records, ecosystem-legal alphabets) x layout (record order, LF/CRLF/mixed, final newline, '
                 'blank lines, comments, unrelated fields, white space, key order / indentation for JSON and TOML), serialised by the harness\'s own encoders and read by the real Extract; '
@@ -154,6 +156,7 @@ def run(ctx):
                      'they rest on the decoder (encoding/json, BurntSushi/toml, golang.org/x/mod/modfile), which is trusted and not modelled, and are exercised by the generator/oracle stream only. '
                      'The theorems start at the decoded document; for package-lock, Pipfile, packages.lock.json and go.mod the oracle list is computed by the Lean Spec (`expected`) from the document '
                      'the extractor\'s own decoder produced; for composer / Cargo / poetry (append/map loops, definitional) it is the generator\'s expected list'}
+    ctx.extra['malformed_streams'] = 'the five line formats, reqtree, dpkgd AND the seven library-decoded formats (a generated file with a byte/line mutation: either the extractor\'s own decoder rejects it and Extract must fail too, or model = implementation on the decoded document)'
     ctx.extra['differential_only'] = 'byte layouts (indentation, key order, CRLF, unrelated fields) of the seven decoded formats; requirements.txt markers, hashes, continuations'
     if not proofs_ok:
         lib.proof_failed(ctx, 'Scalibr.Properties.C03')
